@@ -1,7 +1,7 @@
 // Integer-core executions for the Coq interpreter of Model/SemCore.v (C01).
 // usage: node runcore.mjs <dir>      reads <dir>/index.json (cases: id, calls = argument vectors); for every case and argument vector a FRESH
-// instance of <id>.in.wasm and of <id>.out.wasm is created, export f is called once, the result (or trap) and the exported globals g0 / g1
-// are recorded.  Prints one JSON object: {results: [{id, k, in: {r, g0, g1}, out: {...}}]}.
+// instance of <id>.in.wasm and of <id>.out.wasm is created, export f is called once, the result (or trap), the exported globals g0 / g1 and, when a
+// memory m is exported, a checksum of its contents and its size in pages are recorded.  Prints one JSON object: {results: [{id, k, in: {r, g0, g1}, out: {...}}]}.
 import fs from 'node:fs';
 const [dir] = process.argv.slice(2);
 const index = JSON.parse(fs.readFileSync(`${dir}/index.json`, 'utf8'));
@@ -14,7 +14,12 @@ function one(bytes, args) {
   let r;
   try { const v = inst.exports.f(...args.map(conv)); r = 'ok:' + (v === undefined ? '' : (Array.isArray(v) ? v.map(bits).join(',') : bits(v))); }
   catch (e) { r = (e instanceof WebAssembly.RuntimeError) ? 'trap:' + e.message : 'error:' + String(e && e.message).slice(0, 80); }
-  return { r, g0: bits(inst.exports.g0.value), g1: bits(inst.exports.g1.value) };
+  const o = { r, g0: bits(inst.exports.g0.value), g1: bits(inst.exports.g1.value) };
+  if (inst.exports.m) { // checksum of the memory: sum of byte * (1 + address mod 251) over the non-zero bytes, mod 2^32; size in pages
+    const b = new Uint8Array(inst.exports.m.buffer); let h = 0n;
+    for (let i = 0; i < b.length; i++) if (b[i]) h = (h + BigInt(b[i]) * BigInt(1 + (i % 251))) % 4294967296n;
+    o.memsum = h.toString(); o.pages = String(b.length / 65536); }
+  return o;
 }
 const results = [];
 for (const c of index.cases) {
